@@ -94,6 +94,7 @@ class Ref:
         self.cache = {}
         self.nepoch = 0
         self.now = 0
+        self.hooks = []   # (ch, key, kind, op line): one-shot reactions to the sweeper's removal of (ch, key)
 
     # ------------------------------------------------------------------ helpers
     def ep(self, e):
@@ -142,14 +143,34 @@ class Ref:
                     due.append((e["expire"], ch, k))
         due.sort()
         out = []
-        for _, ch, k in due:
-            c = self.chans[ch]
-            e = c.state.pop(k)
+        for d, ch, k in due:
+            # operations may run between two removals of one sweep (`hook` lines): a key that was refreshed,
+            # republished, removed or cleared in the meantime is not removed (its deadline is no longer `d`)
+            c = self.chans.get(ch)
+            e = c.state.get(k) if c is not None else None
+            if e is None or e["expire"] != d:
+                continue
+            del c.state[k]
             cfg = self.cfg(ch)
             p = {"key": k, "off": 0, "rm": True, "data": 0, "tag": e["pub"]["tag"], "score": 0, "time": t}
             if cfg.valid and cfg.has_stream:
                 p = self.append(c, cfg.size, p)
             out.append(self.bc(ch, p, self.pos(c)))
+            for i, hk in enumerate(self.hooks):
+                if hk[0] == ch and hk[1] == k:
+                    del self.hooks[i]
+                    # the hooked operation follows the removal (its state change, stream entry and broadcast):
+                    # `in` runs inside the removal's HandlePublication call, `co` concurrently with it — the
+                    # channel's publish lock orders it after the removal has been dispatched
+                    ws = hk[3].split()
+                    kv = kvs(ws[1:])
+                    if ws[0] in ("pub", "rm", "clear"):
+                        res, bcs = getattr(self, "op_" + ws[0])(int(kv["ch"]), kv)
+                        out += bcs
+                        out.append("hk:%s:%s" % (kv["ch"], res.replace(" ", ";")))
+                    else:
+                        out.append("hk:bad-op")
+                    break
         return out
 
     def advance(self, dt):
@@ -157,6 +178,7 @@ class Ref:
         out = []
         t = (self.now // 1000 + 1) * 1000
         while t <= target:
+            self.now = t
             out += self.sweep(t)
             t += 1000
         self.now = target
@@ -173,10 +195,16 @@ class Ref:
                 m, ttl, size, o = v.split(":")
                 self.cfgs[int(c[1:])] = Cfg(m, int(ttl), int(size), o == "1")
             return "ok"
-        kv = kvs(ws[1:])
+        head = ws[1:ws.index("|")] if "|" in ws else ws[1:]
+        kv = kvs(head)
         sw = self.advance(int(kv["dt"]))
         sws = ",".join(sw) if sw else "-"
         if cmd == "adv":
+            return "sw=%s ok bc=-" % sws
+        if cmd == "hook":
+            if "|" not in ws or kv.get("kind") not in ("in", "co"):
+                return "bad-op"
+            self.hooks.append((int(kv["ch"]), unhex(kv["key"]), kv["kind"], " ".join(ws[ws.index("|") + 1:])))
             return "sw=%s ok bc=-" % sws
         ch = int(kv["ch"])
         res, bcs = getattr(self, "op_" + cmd)(ch, kv)
